@@ -10,7 +10,7 @@ META = {
                           'get_switched_peak_indices', 'get_peak_array_indices (callee)'],
     'stubs': [],
     'bounds': {'quick': 'crossings: n in 1..7, keep_adj_zeros in {F,T}, tol in {0, symbolic in (0,1000]}; switched '
-                        'peaks: n in 2..6, tol in {0, symbolic positive (n<=5)}; every real value in [-1000,1000]',
+                        'peaks: n in 2..5, tol in {0, symbolic positive (n<=4)}; every real value in [-1000,1000]',
                'thorough': 'crossings n<=9; switched peaks n<=7 (tol=0), n<=6 (tol>0)'},
     'outside': ['NaN/inf inputs', 'floating-point underflow of the product sign test (real-arithmetic model)',
                 'series longer than the bound', 'negative tol (raises NotImplemented by design)'],
@@ -106,16 +106,16 @@ def obligations(tier, seed):
         for keep in (False, True):
             yield Ob('crossings', {'n': n, 'keep': keep, 'tol': True}, timeout_s=1500)
     yield Ob('crossings', {'n': 4, 'via_object': True})
-    top_s = 6 if q else 7
+    top_s = 5 if q else 7
     for n in range(top_s, 1, -1):
-        d = {6: 4, 7: 6}.get(n, 0)
+        d = {5: 3, 6: 5, 7: 7}.get(n, 0)
         if d:
             for k in range(2 ** d):
                 yield Ob('switched', {'n': n, 'split': [d, k]}, timeout_s=1500)
         else:
             yield Ob('switched', {'n': n}, timeout_s=1500)
-    for n in range(5 if q else 6, 1, -1):
-        d = {5: 3, 6: 5}.get(n, 0)
+    for n in range(4 if q else 6, 1, -1):
+        d = {4: 2, 5: 4, 6: 6}.get(n, 0)
         if d:
             for k in range(2 ** d):
                 yield Ob('switched', {'n': n, 'tol': True, 'split': [d, k]}, timeout_s=1500)
